@@ -100,7 +100,7 @@ pub fn run(args: &Args) -> i32 {
         "exploration",
         "every id below 2^20 (thorough 2^26) and every 2^k+d (k=0..62, |d|<=16) - all four low-bit classes occur in both families - is pushed through classification, session-id validation, the session/stream/quarter id conversions and the datagram wire path; distinct = distinct ids, all non-trivial",
     );
-    let limit: u64 = if args.tier == Tier::Thorough { 1 << 26 } else { 1 << 20 };
+    let limit: u64 = if args.tier >= Tier::Deep { 1 << 30 } else if args.tier >= Tier::Thorough { 1 << 26 } else { 1 << 20 };
     let block = 1u64 << 14;
     vx::par_for((limit / block) as usize, args.workers, 1, |_| (), |_, b| {
         let lo = b as u64 * block;
